@@ -424,6 +424,41 @@ func (runInfo *runInfoStruct) invokeLetDerefExpr(expr *ast.DerefExpr) {
 		runInfo.rv = runInfo.rv.Elem()
 	}
 
-	runInfo.rv.Elem().Set(value)
+	if runInfo.rv.Kind() != reflect.Ptr {
+		runInfo.err = newStringError(expr.Expr, "cannot deference non-pointer")
+		runInfo.rv = nilValue
+		return
+	}
+	if runInfo.rv.IsNil() {
+		runInfo.err = newStringError(expr.Expr, "cannot deference nil pointer")
+		runInfo.rv = nilValue
+		return
+	}
+	if !runInfo.rv.CanInterface() {
+		runInfo.err = newStringError(expr, "pointer value cannot be assigned")
+		runInfo.rv = nilValue
+		return
+	}
+	switch runInfo.rv.Interface().(type) {
+	case reflect.Type, *env.Env:
+		// not the script's memory: a type descriptor lives in read-only memory,
+		// writing to it is a fatal fault that no recover can catch
+		runInfo.err = newStringError(expr, "type "+runInfo.rv.Type().String()+" cannot be assigned through")
+		runInfo.rv = nilValue
+		return
+	}
+	elem := runInfo.rv.Elem()
+	if !elem.CanSet() {
+		runInfo.err = newStringError(expr, "pointer value cannot be assigned")
+		runInfo.rv = nilValue
+		return
+	}
+	value, runInfo.err = convertReflectValueToType(value, elem.Type())
+	if runInfo.err != nil {
+		runInfo.err = newStringError(expr, "type "+value.Type().String()+" cannot be assigned to type "+elem.Type().String())
+		runInfo.rv = nilValue
+		return
+	}
+	elem.Set(value)
 	runInfo.rv = value
 }
